@@ -138,6 +138,8 @@ pub enum Resp {
     GrpcStatusHeaders(u32),
     /// read the body, never answer
     Stall,
+    /// read the body, send the response HEADERS (200, no END_STREAM), then never send the message / trailers
+    StallAfterHeaders,
     /// drop the connection as soon as the request head arrived
     ResetBefore,
     /// read the whole body, then drop the connection without answering
@@ -186,6 +188,7 @@ struct State {
     release_gen: u64,
     conns: usize,
     seq: usize,
+    kills: Vec<Arc<tokio::sync::Notify>>,
 }
 
 struct Shared {
@@ -241,6 +244,14 @@ impl Collector {
         st.seq = 0;
     }
 
+    /// Drop every connection accepted so far (exchanges still hanging from an earlier case end with an error).
+    pub fn kill_connections(&self) {
+        let kills = std::mem::take(&mut self.shared.state.lock().unwrap().kills);
+        for k in kills {
+            k.notify_one();
+        }
+    }
+
     /// Block until `n` requests are parked, or the timeout elapses. Returns whether they are.
     pub fn wait_holding(&self, n: usize, timeout: Duration) -> bool {
         let deadline = Instant::now() + timeout;
@@ -294,6 +305,7 @@ async fn accept_loop(listener: tokio::net::TcpListener, h2: bool, shared: Arc<Sh
             st.conns
         };
         let kill = Arc::new(tokio::sync::Notify::new());
+        shared.state.lock().unwrap().kills.push(kill.clone());
         let sh = shared.clone();
         let k2 = kill.clone();
         tokio::spawn(async move {
@@ -478,6 +490,14 @@ async fn handle(req: Request<Incoming>, conn: usize, h2: bool, shared: Arc<Share
             std::future::pending::<()>().await;
             unreachable!()
         }
+        Resp::StallAfterHeaders => {
+            push(rec);
+            Response::builder()
+                .status(200)
+                .header("content-type", if grpc { "application/grpc" } else { "application/x-protobuf" })
+                .body(RespBody { data: None, trailers: None, hang: true })
+                .unwrap()
+        }
         Resp::Hold => {
             {
                 let mut st = shared.state.lock().unwrap();
@@ -513,7 +533,7 @@ async fn handle(req: Request<Incoming>, conn: usize, h2: bool, shared: Arc<Share
                     .status(200)
                     .header("content-type", if json { "application/json" } else { "application/x-protobuf" })
                     .header("content-length", body.len())
-                    .body(RespBody { data: Some(Bytes::from_static(body)), trailers: None })
+                    .body(RespBody { data: Some(Bytes::from_static(body)), trailers: None, hang: false })
                     .unwrap()
             }
         }
@@ -531,7 +551,7 @@ async fn handle(req: Request<Incoming>, conn: usize, h2: bool, shared: Arc<Share
             Response::builder()
                 .status(200)
                 .header("content-type", "application/grpc")
-                .body(RespBody { data: None, trailers: Some(t) })
+                .body(RespBody { data: None, trailers: Some(t), hang: false })
                 .unwrap()
         }
         Resp::GrpcStatusHeaders(n) => {
@@ -541,7 +561,7 @@ async fn handle(req: Request<Incoming>, conn: usize, h2: bool, shared: Arc<Share
                 .header("content-type", "application/grpc")
                 .header("grpc-status", n.to_string())
                 .header("grpc-message", "scripted")
-                .body(RespBody { data: None, trailers: None })
+                .body(RespBody { data: None, trailers: None, hang: false })
                 .unwrap()
         }
     }
@@ -557,6 +577,7 @@ fn ack(grpc: bool, with_body: bool) -> Response<RespBody> {
             .body(RespBody {
                 data: if with_body { Some(Bytes::from_static(&[0, 0, 0, 0, 0])) } else { None },
                 trailers: Some(t),
+                hang: false,
             })
             .unwrap()
     } else {
@@ -568,7 +589,7 @@ fn plain(status: u16) -> Response<RespBody> {
     Response::builder()
         .status(status)
         .header("content-length", "0")
-        .body(RespBody { data: None, trailers: None })
+        .body(RespBody { data: None, trailers: None, hang: false })
         .unwrap()
 }
 
@@ -583,6 +604,8 @@ fn gunzip(b: &[u8]) -> Option<Vec<u8>> {
 pub struct RespBody {
     data: Option<Bytes>,
     trailers: Option<HeaderMap>,
+    /// never produce a frame and never end
+    hang: bool,
 }
 
 impl Body for RespBody {
@@ -590,6 +613,9 @@ impl Body for RespBody {
     type Error = Infallible;
     fn poll_frame(self: Pin<&mut Self>, _: &mut Context<'_>) -> Poll<Option<Result<Frame<Bytes>, Infallible>>> {
         let this = self.get_mut();
+        if this.hang {
+            return Poll::Pending;
+        }
         if let Some(d) = this.data.take() {
             return Poll::Ready(Some(Ok(Frame::data(d))));
         }
@@ -599,7 +625,7 @@ impl Body for RespBody {
         Poll::Ready(None)
     }
     fn is_end_stream(&self) -> bool {
-        self.data.is_none() && self.trailers.is_none()
+        !self.hang && self.data.is_none() && self.trailers.is_none()
     }
 }
 
